@@ -91,6 +91,14 @@ func newScopeRegistryWithShardCount(
 		},
 	}
 
+	// n.b. The default tags go to the reporter too, so they are sanitized like
+	//      the user supplied ones (e.g. the dots in the version).
+	defaultTags := r.cardinalityMetricsTags
+	r.cardinalityMetricsTags = make(map[string]string, len(defaultTags)+len(cardinalityMetricsTags))
+	for k, v := range defaultTags {
+		r.cardinalityMetricsTags[root.sanitizer.Key(k)] = root.sanitizer.Value(v)
+	}
+
 	for k, v := range cardinalityMetricsTags {
 		r.cardinalityMetricsTags[root.sanitizer.Key(k)] = root.sanitizer.Value(v)
 	}
